@@ -103,6 +103,28 @@ for n in ["reg_upload", "cred_req", "cred_resp", "client_login"]:
       covers=["ok", "err"], timeout=2400, mem_gb=16)
     D_ALL.append("d_win_" + n)
 
+# ---- D-serde: the serde paths (harness-defined byte-verbatim format `flat`, harness/common/flatserde.rs)
+SERDE_TYPES = {
+    "reg_req": ("RegistrationRequest", 1), "reg_resp": ("RegistrationResponse", 3), "reg_upload": ("RegistrationUpload", 54),
+    "server_registration": ("ServerRegistration", 54), "cred_req": ("CredentialRequest", 35), "cred_resp": ("CredentialResponse", 117),
+    "cred_fin": ("CredentialFinalization", 8), "setup": ("ServerSetup", 14), "client_reg": ("ClientRegistration", 2),
+    "client_login": ("ClientLogin", 69), "server_login": ("ServerLogin", 24),
+}
+DS_ALL, DR_ALL = [], []
+for k, (ty, l) in SERDE_TYPES.items():
+    H("ds_" + k, "h_serde::ds_" + k,
+      "serde Deserialize of %s (real derive / keypair.rs / voprf impls driven by the byte-verbatim format): accepted => exactly %d bytes consumed, the value's native encoding is accepted and rebuilt identically by the native decoder (no invalid element / scalar / key bypasses validation), serde re-encoding == input; one byte short is refused" % (ty, l),
+      "every byte string of the serde length %d and of length %d" % (l, l - 1), covers=["serde ok", "serde err"] if k not in ("cred_fin", "server_login") else ["serde ok"],
+      timeout=1500, mem_gb=12)
+    H("dr_" + k, "h_serde::dr_" + k,
+      "%s: every natively decodable value saved through serde and reloaded has the same native encoding and the same serde bytes; everything written is consumed" % ty,
+      "every natively decodable value (all native-length byte strings through the native decoder)", covers=["reloaded"], timeout=1500, mem_gb=12)
+    DS_ALL.append("ds_" + k)
+    DR_ALL.append("dr_" + k)
+H("ds_keys", "h_serde::ds_keys",
+  "PublicKey / PrivateKey serde Deserialize (keypair.rs): Ok <=> valid canonical non-identity key / non-zero in-range scalar, agrees with the native decoder, re-encodes to the input",
+  "every 2-byte public key string and every 1-byte private key string of the model KE group", covers=["pk ok", "pk err", "sk ok", "sk err"])
+
 # ---- S6 / S7 (private units of opaque.rs)
 H("s6_pwd_key_len3", "verif_kani_opaque::s6_pwd_key_len3",
   "get_password_derived_key: KSF called exactly once on Finalize(pw, blind, evaluation), with the passed instance or the default; result == Extract(\"\", out || Stretch(out)); KSF failure => Err",
@@ -288,9 +310,11 @@ for n in ("external_key", "external_key_unregistered"):
 # always on): no reachable panic, unwrap on None/Err, unreachable!, overflow, out-of-bounds, invalid pointer
 C12_SET = ["d_reg_req", "d_reg_resp", "d_client_reg", "d_cred_fin", "d_setup", "d_setup_xk", "d_server_login", "d_cred_req",
            "c03_server_finish_exact", "s12_i2osp_all_usize", "s12_input_from_all_lengths", "s12_input_from_label",
-           "s12_identifiers_defaulting", "s13_dummy_record", "s2_client_reg_start_pw2", "s6_pwd_too_long", "s4_server_reg_start_cred2"]
+           "s12_identifiers_defaulting", "s13_dummy_record", "s2_client_reg_start_pw2", "s6_pwd_too_long", "s4_server_reg_start_cred2",
+           "ds_keys", "ds_reg_resp", "ds_client_reg", "ds_setup"]
 C12_T = ["d_reg_upload", "d_cred_resp", "d_client_login", "d_all_reg_req", "d_all_reg_resp", "d_all_cred_fin", "d_all_setup", "d_all_client_reg",
-         "d_all_server_login", "s3_client_login_start_pw2", "s5_server_setup_new", "g1_x25519_sk_decode", "g2_x25519_pk_roundtrip", "g5_p256_sk_decode"]
+         "d_all_server_login", "s3_client_login_start_pw2", "s5_server_setup_new", "g1_x25519_sk_decode", "g2_x25519_pk_roundtrip", "g5_p256_sk_decode",
+         "ds_server_login", "ds_cred_req", "dr_setup"]
 for n in C12_SET + C12_T:
     d = dict(HARNESSES[n])
     d["default_checks"] = True
@@ -358,22 +382,25 @@ PROPERTIES["C09"] = dict(
 PROPERTIES["C10"] = dict(
     quick=SELF + D_QUICK + ["g1_x25519_sk_decode", "g1_x25519_sk_lengths", "g2_x25519_pk_roundtrip", "g2_x25519_pk_no_alias", "g2_x25519_pk_no_alias_canonical",
                             "g4_ristretto_lengths_identity", "g4_ristretto_sk_decode", "g4_ristretto_sk_boundaries", "g5_p256_sk_decode", "g6_p256_pk_unknown_tags", "g6_p256_pk_bad_tags"],
-    thorough=D_ALL + ["g6_p256_pk_tag_cases"],
+    thorough=D_ALL + ["g6_p256_pk_tag_cases"] + DS_ALL + DR_ALL,
     assumptions=["opaque-ke's own slicing/length logic is decided on the model suite for all 11 decoders; the real groups' byte-level decoders are decided for Curve25519 (all inputs), ristretto255 scalars, P-256 scalars and tag bytes; point decompression (off-curve x, non-canonical ristretto encodings) needs a symbolic field square root and is not decided"])
 PROPERTIES["C11"] = dict(
     quick=SELF + ["d_reg_req", "d_reg_resp", "d_reg_upload", "d_cred_req", "d_cred_resp", "d_setup", "d_client_reg", "d_client_login",
-                  "g1_x25519_sk_decode", "g2_x25519_pk_small_order", "g4_ristretto_sk_decode", "g4_ristretto_sk_boundaries", "g5_p256_sk_decode", "g6_p256_pk_unknown_tags", "g6_p256_pk_bad_tags"],
-    thorough=["g6_p256_pk_tag_cases", "d_all_reg_resp", "d_all_client_reg", "d_all_setup"],
-    assumptions=["serde paths (bincode / JSON) are not encoded: the serde impls in keypair.rs call the same KeGroup decoders that are decided here (by inspection, not by the solver)",
+                  "g1_x25519_sk_decode", "g2_x25519_pk_small_order", "g4_ristretto_sk_decode", "g4_ristretto_sk_boundaries", "g5_p256_sk_decode", "g6_p256_pk_unknown_tags", "g6_p256_pk_bad_tags",
+                  "ds_keys", "ds_reg_req", "ds_reg_resp", "ds_setup", "ds_client_reg", "ds_cred_req", "ds_reg_upload"],
+    thorough=["g6_p256_pk_tag_cases", "d_all_reg_resp", "d_all_client_reg", "d_all_setup", "ds_server_registration", "ds_cred_resp", "ds_client_login", "ds_cred_fin", "ds_server_login"],
+    assumptions=["serde paths: the crate's Serialize/Deserialize implementations (derive-generated visitors, keypair.rs, voprf's element/scalar adapters, generic-array's tuple impl) are executed symbolically under the harness-defined byte-verbatim format `flat` (byte-identical to bincode 1.x for these fixed-size types); bincode and serde_json themselves (third-party, heap-allocating parsers; self-describing map access by field name) are not encoded",
                  "off-curve / non-canonical point encodings need symbolic decompression: not decided"])
 PROPERTIES["C12"] = dict(
     quick=SELF + ["c12_" + n for n in C12_SET],
     thorough=["c12_" + n for n in C12_T],
     assumptions=["panic-freedom is decided for the harnesses listed, with CBMC's memory-safety checks and Kani's Rust panic checks on, within their input bounds; a zero-entropy RNG that makes rejection-sampling loops spin is outside the RNG contract"])
 PROPERTIES["C13"] = dict(
-    quick=SELF + ["d_setup", "d_setup_xk", "d_server_registration", "d_client_reg", "d_client_login", "d_server_login", "s5_server_setup_new", "c03_server_finish_exact"],
-    thorough=["d_all_setup", "d_all_setup_xk", "d_all_client_reg", "d_win_client_login", "d_all_server_login", "d_win_reg_upload"] + W2[:1] + W3[:1],
-    assumptions=["native byte encodings only: decode(encode(x)) is structurally x and encode(decode(b)) == b for all five persisted types, and every step harness starts from deserialized bytes; bincode / serde_json themselves are not encoded"])
+    quick=SELF + ["d_setup", "d_setup_xk", "d_server_registration", "d_client_reg", "d_client_login", "d_server_login", "s5_server_setup_new", "c03_server_finish_exact",
+                  "dr_setup", "dr_server_registration", "dr_client_reg", "dr_server_login", "ds_setup", "ds_server_login", "ds_client_reg"],
+    thorough=["d_all_setup", "d_all_setup_xk", "d_all_client_reg", "d_win_client_login", "d_all_server_login", "d_win_reg_upload", "dr_client_login", "ds_client_login", "ds_server_registration"] + W2[:1] + W3[:1],
+    assumptions=["native byte encodings: decode(encode(x)) is structurally x and encode(decode(b)) == b for all five persisted types, and every step harness starts from deserialized bytes",
+                 "serde: for every natively decodable value of the five persisted types, save+reload through the crate's Serialize/Deserialize impls (driven by the byte-verbatim positional format `flat` = bincode 1.x layout) gives a value with the same native encoding and the same serde bytes, and every serde-accepted byte string is canonical and natively valid; bincode / serde_json themselves and by-name (map) field access are not encoded"])
 PROPERTIES["C14"] = dict(
     quick=SELF + ["s2_client_reg_start_pw0", "s2_client_reg_start_pw2", "s7_oprf_key_from_seed", "s7_oprf_key_from_seed_long_cred", "s4_server_reg_start_cred0", "s4_server_reg_start_cred2", "s6_pwd_key_len3"],
     thorough=S6L + W1 + W2[:3] + ["s3_client_login_start_pw2"],
